@@ -27,7 +27,7 @@ class C16(Check):
     pid = "C16"
     title = "Renaming variables is faithful substitution"
     level_text = ("Lean theorems term_rename_sem, contract_rename_sem (renamed assumptions / guarantees hold at v iff the originals hold at v with the old name reading "
-                  "the new one), rename_absent_sem, rename_iface_in/out, rename_rejects, rename_fresh_back_iface/sem, renameAll_is_fold for the models of "
+                  "the new one), rename_absent_sem, rename_self_sem (source equal to target changes nothing), rename_iface_in/out, rename_rejects, rename_fresh_back_iface/sem, renameAll_is_fold for the models of "
                   "PolyhedralTerm.rename_variable, IoContract.rename_variable (generated interface code, constructor re-simplification) and rename_variables; structural "
                   "correspondence; exact certified judge of the two equivalences against an independent substitution.")
     lean_modules = ["Pacti.Props.C16"]
